@@ -310,32 +310,11 @@ def sliceBound (b : Option (JV N)) (dflt : Int) : Except String (Option Int) :=
     | none => .ok none
   | some _ => .error "Array/string slice indices must be integers"
 
-def sliceValue (v : JV N) (lo hi : Option (JV N)) : Res N :=
-  let len : Option Nat := match v with
-    | .arr xs => some xs.length
-    | .str s => some s.length
-    | .null => some 0
-    | _ => none
-  match v, len with
-  | .null, _ => some [.val .null .off]
-  | _, none => errS s!"Cannot index {v.typeName} with object"
-  | _, some n =>
-    match sliceBound lo 0, sliceBound hi n with
-    | .error m, _ => errS m
-    | _, .error m => errS m
-    | .ok none, _ => none
-    | _, .ok none => none
-    | .ok (some a), .ok (some b) =>
-      let s := clampIdx a n
-      let e := clampIdx b n
-      let e := if e < s then s else e
-      match v with
-      | .arr xs => some [.val (.arr ((xs.drop s).take (e - s))) .off]
-      | .str str => some [.val (.str (String.ofList ((str.toList.drop s).take (e - s)))) .off]
-      | _ => none
-
 def sliceKey (lo hi : Option (JV N)) : JV N :=
   .obj [("start", lo.getD .null), ("end", hi.getD .null)]
+
+def sliceValue (v : JV N) (lo hi : Option (JV N)) : Res N :=
+  liftExc .off (v.getStep (sliceKey lo hi))
 
 /-- `.[k]` on a value (read side, value level) -/
 def indexValue (v k : JV N) : Res N :=
@@ -343,11 +322,6 @@ def indexValue (v k : JV N) : Res N :=
   | .arr xs, .arr pat =>
     -- indices of a subarray (`jv_array_indexes`)
     some [.val (.arr (subIdx xs pat 0)) .off]
-  | .null, .obj _ => some [.val .null .off]
-  | v, .obj fs =>
-    (match v with
-     | .arr _ | .str _ => sliceValue v (JV.lookup fs "start") (JV.lookup fs "end")
-     | _ => errS s!"Cannot index {v.typeName} with object")
   | v, k => liftExc .off (v.getStep k)
 where
   subIdx (xs pat : List (JV N)) (i : Nat) : List (JV N) :=
@@ -401,7 +375,8 @@ def containsV (fuel : Nat) (a b : JV N) : Option Bool :=
 
 /-! ### formats -/
 
-def b64chars : List Char := "ABCDEFGHIJKLMNOPQRSTUVWXYZabcdefghijklmnopqrstuvwxyz0123456789+/".toList
+def b64chars : List Char :=
+  ['A', 'B', 'C', 'D', 'E', 'F', 'G', 'H', 'I', 'J', 'K', 'L', 'M', 'N', 'O', 'P', 'Q', 'R', 'S', 'T', 'U', 'V', 'W', 'X', 'Y', 'Z', 'a', 'b', 'c', 'd', 'e', 'f', 'g', 'h', 'i', 'j', 'k', 'l', 'm', 'n', 'o', 'p', 'q', 'r', 's', 't', 'u', 'v', 'w', 'x', 'y', 'z', '0', '1', '2', '3', '4', '5', '6', '7', '8', '9', '+', '/']
 
 def b64enc : List UInt8 → List Char
   | [] => []
@@ -595,12 +570,22 @@ def reparseAll (fuel : Nat) (v : JV N) : JV N :=
   | fuel + 1 =>
     match v with
     | .num n =>
+      -- a number that still carries a spelling of its own keeps it
+      if (NumOps.canon n).contains '~' then v else
       (match NumOps.print n with
        | some s => (match (NumOps.ofLit s : Option N) with | some m => .num m | none => v)
        | none => v)
     | .arr xs => .arr (xs.map (reparseAll fuel))
     | .obj fs => .obj (fs.map fun (k, x) => (k, reparseAll fuel x))
     | v => v
+
+/-- jq's parser diagnostic for a string that is a single garbage token (the only shape succinctly
+and the recorded probes pin down); anything with separators or brackets: no verdict -/
+def badJsonMsg (s : String) : Res N :=
+  if s.isEmpty then errS "Expected JSON value (while parsing '')"
+  else if s.toList.all (fun c => c.isAlphanum || c == '+' || c == '-' || c == '.' || c == '_') then
+    errS s!"Invalid numeric literal at EOF at line 1, column {s.utf8ByteSize} (while parsing '{s}')"
+  else none
 
 /-- names/arity of the primitives `prim` implements (anything else is outside the fragment) -/
 def primNames : List (String × Nat) :=
@@ -610,7 +595,7 @@ def primNames : List (String × Nat) :=
    ("_unique_by_impl",1),("_min_by_impl",1),("_max_by_impl",1),("min",0),("max",0),("floor",0),("sqrt",0),
    ("ceil",0),("round",0),("fabs",0),("infinite",0),("nan",0),("isinfinite",0),("isnan",0),("explode",0),
    ("implode",0),("ltrimstr",1),("rtrimstr",1),("startswith",1),("endswith",1),("split",1),("trim",0),
-   ("ltrim",0),("rtrim",0),("_unmodelled",0),("_split_j",1),("_trim_j",0),("_ltrim_j",0),("_rtrim_j",0),("_strindices",1),("getpath",1),("setpath",2),("delpaths",1)]
+   ("ltrim",0),("rtrim",0),("_unmodelled",0),("_split_j",1),("trunc",0),("have_literal_numbers",0),("test",1),("test",2),("match",1),("match",2),("capture",1),("capture",2),("scan",1),("scan",2),("splits",1),("splits",2),("sub",2),("sub",3),("gsub",2),("gsub",3),("split",2),("_trim_j",0),("_ltrim_j",0),("_rtrim_j",0),("_strindices",1),("getpath",1),("setpath",2),("delpaths",1)]
 
 /-- the C-coded builtins, by name and evaluated arguments (cartesian product already taken) -/
 def prim (d : Dialect) (name : String) (args : List (JV N)) (v : JV N) (p : PInfo N) : Res N :=
@@ -655,7 +640,7 @@ def prim (d : Dialect) (name : String) (args : List (JV N)) (v : JV N) (p : PInf
        (match NumOps.toInt? n with
         | some i => ok (.bool (0 ≤ i && i < xs.length))
         | none => none)
-     | .null, _ => if d.succinctly then none else errS s!"Cannot check whether null has a {k.typeName} key"
+     | .null, _ => ok (.bool false)
      | v, k => errS s!"Cannot check whether {v.typeName} has a {k.typeName} key")
   | "contains", [b] =>
     (match containsV 200 v b with
@@ -668,13 +653,18 @@ def prim (d : Dialect) (name : String) (args : List (JV N)) (v : JV N) (p : PInf
   | "tojson", [] => v.toJson.bind fun s => ok (.str s)
   | "fromjson", [] =>
     (match v with
-     | .str s => (readJson s : Option (JV N)).bind fun r => ok (if d.fromjsonPlain then plainAll 200 r else r)
+     | .str s =>
+       (match (readJson s : Option (JV N)) with
+        | some r => ok (if d.fromjsonPlain then plainAll 200 r else r)
+        | none => badJsonMsg s)
      | v => subjErr v "only strings can be parsed")
   | "tonumber", [] =>
     (match v with
      | .num _ => ok v
      | .str s =>
-       if validJsonNumber s.toList then (NumOps.ofLit s : Option N).bind fun n => ok (.num n) else none
+       if validJsonNumber s.toList then (NumOps.ofLit s : Option N).bind fun n => ok (.num n)
+       else if s == "null" || s == "true" || s == "false" then subjErr v "cannot be parsed as a number"
+       else badJsonMsg s
      | v => subjErr v "cannot be parsed as a number")
   | "sort", [] =>
     (match v with
@@ -759,7 +749,7 @@ def prim (d : Dialect) (name : String) (args : List (JV N)) (v : JV N) (p : PInf
        if cps.all (fun (c : Option Int) => match c with | some i => decide (0 ≤ i) && decide (i < 0xD800) | none => false) then
          ok (.str (String.ofList (cps.map fun c => Char.ofNat (c.getD 0).toNat)))
        else
-         (match xs.find? (fun x => match x with | .num _ => false | _ => true) with
+         (match xs.find? (fun x => match x with | .num n => NumOps.isNan n | _ => true) with
           | some bad => subjErr bad "can't be imploded, unicode codepoint needs to be numeric"
           | none => none)
      | _ => errS "implode input must be an array")
@@ -819,17 +809,15 @@ def prim (d : Dialect) (name : String) (args : List (JV N)) (v : JV N) (p : PInf
     (match ps with
      | .arr pths =>
        if pths.all (fun q => match q with | .arr _ => true | _ => false) then
-         -- delete longest / last paths first: sort descending
-         let sorted := (JV.sort pths).reverse
-         let r := sorted.foldl (fun (acc : Except String (JV N)) q =>
-           match acc, q with
-           | .ok cur, .arr ks => cur.delpath ks
-           | e, _ => e) (.ok v)
-         liftExc p.drop r
+         liftExc p.drop (JV.delPaths 200 v (pths.filterMap fun q => match q with | .arr ks => some ks | _ => none))
        else if d.succinctly then none else errS "Path must be specified as an array"
      | _ => errS "Paths must be specified as an array")
+  | "trunc", [] =>
+    (match v with
+     | .num n => (NumOps.math "trunc" n).bind fun r => ok (.num r)
+     | v => if d.succinctly then errS "math function requires number" else subjErr v "number required")
+  | "have_literal_numbers", [] => ok (.bool true)
   | "tostream_list", [] => ok (.arr v.tostream)
-  | "splits", _ => none
   | _, _ => none
 
 /-! ### destructuring -/
@@ -962,6 +950,10 @@ def succName (name : String) (arity : Nat) : String :=
   | "isnormal", 0 => "_unmodelled"
   | "splits", _ => "_unmodelled"
   | "combinations", _ => "_unmodelled"
+  | "have_literal_numbers", 0 => "_unmodelled"
+  | "bsearch", 1 => "_unmodelled"
+  | "IN", _ => "_unmodelled"
+  | "INDEX", _ => "_unmodelled"
   | "ascii", _ => "_unmodelled"
   | "tostream", 0 => "tostream"
   | "last", 1 => "_last_s"
@@ -1055,11 +1047,9 @@ def evalStep (d : Dialect) (rec : Rec N) (e : Expr) (env : Env N) (v : JV N) (p 
   | .obj entries =>
     objGo (fun a => rec a env v .off)
       (fun bad =>
-        if d.succinctly then
-          (match describe bad with
-           | some s => errS s!"Cannot use {s} as object key"
-           | none => none)
-        else errS "Object keys must be strings")
+        match describe bad with
+        | some s => errS s!"Cannot use {s} as object key"
+        | none => none)
       entries [] p
   | .neg a => do
     let r ← rec a env v .off
@@ -1108,7 +1098,7 @@ def evalStep (d : Dialect) (rec : Rec N) (e : Expr) (env : Env N) (v : JV N) (p 
         | some x => rec x env v p
         | none => if d.ifNoElseNull then okV p .null else some [.val v p])
   | .reduce src pat init upd =>
-    if (match p with | .off => false | _ => true) then none else do
+    if d.succinctly && (match p with | .off => false | _ => true) then none else do
     let inits ← rec init env v p
     bindOut inits (fun iv ip => do
       let srcs ← rec src env v p
@@ -1125,7 +1115,7 @@ def evalStep (d : Dialect) (rec : Rec N) (e : Expr) (env : Env N) (v : JV N) (p 
             | _ => pure ((JV.null, st.2.drop), []))
       if terminated outs then pure outs else pure [.val st.1 st.2])
   | .foreach src pat init upd ext =>
-    if (match p with | .off => false | _ => true) then none else do
+    if d.succinctly && (match p with | .off => false | _ => true) then none else do
     let inits ← rec init env v p
     bindOut inits (fun iv ip => do
       let srcs ← rec src env v p
@@ -1198,6 +1188,14 @@ def evalStep (d : Dialect) (rec : Rec N) (e : Expr) (env : Env N) (v : JV N) (p 
           if d.succinctly && us.length != 1 then none else
           bindOut us (fun y _ => rangeList x y p))
       | _, _ =>
+        if ["test", "match", "capture", "scan", "splits", "sub", "gsub"].contains name
+            || (name == "split" && args.length == 2) then
+          -- no regex engine in the model: only the refusal of a non-string input is decided
+          -- (jq checks the input before it looks at the pattern / replacement arguments)
+          (match v with
+           | .str _ => none
+           | v => subjErr v "cannot be matched, as it is not a string")
+        else
         if !primNames.contains (name, args.length) then none else do
           let runs ← args.mapM (fun a => rec a env v .off)
           -- succinctly evaluates an argument generator only once (first value); not modelled
